@@ -2,6 +2,8 @@
 //! s-expression syntax, a SplitMix64 PRNG (every random choice of a run derives
 //! from one state), string/cluster conversion against the real `CharString`,
 //! panic/timeout guards and the `gen` / `run` command loop every property binary uses.
+pub mod sched;
+
 use std::fmt::Write as _;
 use std::io::{BufRead, Write};
 
